@@ -20,6 +20,8 @@ type Fact struct {
 	Deps  map[ssa.Value]bool
 	Reads []memRead
 	At    ssa.Instruction // instruction (If) that established it
+	Held  []string        // mutexes held when the fact was established
+	Epoch int             // critical-section counter at that time
 }
 
 func (f *Fact) String() string {
@@ -468,7 +470,10 @@ func assume(st *State, a *Atom, cond bool, at ssa.Instruction) {
 	val := cond != a.Neg
 	k := a.key()
 	mk := func(old *Fact) *Fact {
-		f := &Fact{Kind: a.Kind, X: a.X, Y: a.Y, Val: val, Deps: a.Deps, Reads: a.Reads, At: at}
+		f := &Fact{Kind: a.Kind, X: a.X, Y: a.Y, Val: val, Deps: a.Deps, Reads: a.Reads, At: at, Epoch: st.epoch}
+		for _, h := range st.held {
+			f.Held = append(f.Held, h.Key)
+		}
 		if a.Kind == "eq" {
 			if val {
 				f.Eq = a.C
@@ -923,6 +928,12 @@ func (ex *Explorer) NilState(st *State, v ssa.Value) (int, *Fact) {
 	if f, ok := st.live["nil:"+ce.S]; ok {
 		return b2i(f.Val), f
 	}
+	// package-level sentinel (errors.New at init, never reassigned)
+	if ld, ok := r.(*ssa.UnOp); ok && ld.Op == token.MUL {
+		if g, ok := ld.X.(*ssa.Global); ok && globalNeverNil(ex.P, g) {
+			return 0, nil
+		}
+	}
 	// (T, error) convention: T is valid (non-nil) once the error was found nil
 	if e, ok := r.(*ssa.Extract); ok {
 		if call, ok := e.Tuple.(*ssa.Call); ok {
@@ -940,3 +951,25 @@ func (ex *Explorer) NilState(st *State, v ssa.Value) (int, *Fact) {
 }
 
 func isErrorT(t types.Type) bool { return types.Identical(t, types.Universe.Lookup("error").Type()) }
+
+var globalNeverNilMemo = map[*ssa.Global]int{}
+
+// globalNeverNil: every store to the package-level variable (initialiser
+// included) stores a definitely non-nil value, and there is at least one.
+func globalNeverNil(p *Program, g *ssa.Global) bool {
+	if v, ok := globalNeverNilMemo[g]; ok {
+		return v == 1
+	}
+	globalNeverNilMemo[g] = 0
+	stores := findStores(p, nil, g)
+	if len(stores) == 0 {
+		return false
+	}
+	for _, s := range stores {
+		if !definitelyNonNil(s.Val) {
+			return false
+		}
+	}
+	globalNeverNilMemo[g] = 1
+	return true
+}
